@@ -1,5 +1,5 @@
 import RedisEmu.Exec
-import RedisEmu.Proofs.GoArith
+import RedisEmu.Proofs.GoArithList
 import Mathlib.Tactic.SplitIfs
 /-
   C03 — list commands. Theorems about `RedisEmu.Cmds` (family `list` of the correspondence run).
@@ -309,5 +309,8 @@ theorem lrange_clamp_as_coded (s e n : BitVec 64) (hn : 0 ≤ n.toInt) :
 theorem ltrim_clamp_as_coded (s e n : BitVec 64) (hn : 0 ≤ n.toInt) :
     ((Go.ltrimClamp s e n).1.toInt, (Go.ltrimClamp s e n).2.toInt) = ltrimBounds n.toInt s.toInt e.toInt :=
   go_ltrimClamp s e n hn
+
+/-- this property's part of what the translator delivered on this run -/
+theorem go_arith_translated_list : ["lrangeClamp", "ltrimClamp"].all (Go.translated.contains ·) = true := by decide
 
 end RedisEmu
